@@ -23,6 +23,9 @@ SK = 'ska_dict::split_kmer::SplitKmer::'
 
 
 def run(facts, chk, tier, only=None):
+    from . import skiter
+    chk.guard('C02.func', 'C02.func:strand-symmetry', lambda: skiter.check_strand_symmetry(facts, chk, 'C02.func', tier))
+    chk.guard('C02.func', 'C02.func:invariance', lambda: skiter.check_dict_invariance(facts, chk, 'C02.func', tier))
     def case():
         I = Interp(facts)
         bad = []
